@@ -33,7 +33,7 @@ NSHARDS = {"quick": 16, "thorough": 16}
 DEPTH = {"quick": 4, "thorough": 5}
 N_SIM = {"quick": 20, "thorough": 500}
 N_MIX = {"quick": 120, "thorough": 4000}
-REQUIRE = {"requests_accepted": 10000, "requests_refused": 100000, "state_vectors_reached": 200,
+REQUIRE = {"scale:run_with_more_than_8192_pipelines": 1, "requests_accepted": 10000, "requests_refused": 100000, "state_vectors_reached": 200,
            "transition:failed->assigned": 50, "transition:assigned->suspending": 20, "transition:suspending->pending": 20,
            "transition_refused": 20, "sim_runs": 80, "full_state_polls": 100}
 
